@@ -211,10 +211,29 @@ def followup_vary(sc, jdv, st, tr, tag, seed):
     return [(plan, "TraceJP", tag + "v")]
 
 
-DESIGN_CFG = {}     # name -> (module, cfg text)   filled in below
+def _mcpatch(fam):
+    return ("MCPatch", "SPECIFICATION Spec\nCONSTANT Family = \"%s\"\nINVARIANT RoundTrip NoFailureOnSource Total Relations OrderInsensitive\n"
+            "PROPERTY ErrTerminal FrameProp\nCHECK_DEADLOCK FALSE\n" % fam, 16)
+
+
+# name -> (module, cfg text, workers): bounded exhaustive design-level models, small constants, finish in seconds
+DESIGN_CFG = {
+    "ListDiff": ("ListDiff", "SPECIFICATION Spec\nCONSTANT MaxLen = 3\nINVARIANT IndexBookkeeping AtEnd\nCHECK_DEADLOCK FALSE\n", 16),
+    "ListDiff-4": ("ListDiff", "SPECIFICATION Spec\nCONSTANT MaxLen = 4\nINVARIANT IndexBookkeeping AtEnd\nCHECK_DEADLOCK FALSE\n", 16),
+    "MCEq": ("MCEq", "INIT Init\nNEXT Next\nINVARIANT Laws\nCHECK_DEADLOCK FALSE\n", 16),
+    "MCText": ("MCText", "SPECIFICATION Spec\nCONSTANT MaxLines = 3\nINVARIANT TypeOK Total CarrierAtEnd\nPROPERTY ErrSticks\nCHECK_DEADLOCK FALSE\n", 16),
+    "MCJsonPatch": ("MCJsonPatch", "SPECIFICATION Spec\nINVARIANT MachineIsEval OnA NativeImpliesRfc\nCHECK_DEADLOCK FALSE\n", 16),
+    "MCMerge": ("MCMerge", "INIT Init\nNEXT Next\nINVARIANT C11 C12 C12Deviations\nCHECK_DEADLOCK FALSE\n", 16),
+    "MCApi": ("MCApi", "SPECIFICATION ApiSpec\nCONSTANT MaxLen = 3\nINVARIANT Deterministic\nPROPERTY Pure\nCHECK_DEADLOCK FALSE\n", 8),
+    "MCCli": ("MCCli", "SPECIFICATION Spec\nINVARIANT AgreesWithFunction ExitRange\nCHECK_DEADLOCK FALSE\n", 8),
+    "MCV1": ("MCV1", "INIT Init\nNEXT Next\nINVARIANT RoundTrip1 Empty1 Rfc6902\nCHECK_DEADLOCK FALSE\n", 16),
+    "MCPatch-list": _mcpatch("list"), "MCPatch-nest": _mcpatch("nest"), "MCPatch-obj": _mcpatch("obj"), "MCPatch-keyed": _mcpatch("keyed"),
+}
+
+THOROUGH_EXTRA = {p: ["MCPatch-list", "MCPatch-nest", "MCPatch-obj", "MCPatch-keyed"] for p in ("C01", "C03", "C05", "C06", "C07", "C08")}
 
 CHECKS = {
-    "C01": dict(stages=[Stage("dp", "TraceDP", plan_dp)], design=["MCPatch"],
+    "C01": dict(stages=[Stage("dp", "TraceDP", plan_dp)], design=["ListDiff", "MCPatch-list", "MCPatch-obj"],
                 rule="session = one (a, b, options) triple: Diff as returned, Patch of every prefix on fresh documents, "
                      "Equals; non-trivial = the diff has at least one hunk"),
     "C02": dict(stages=[Stage("tx", "TraceText", plan_tx)], design=["MCText"],
@@ -231,7 +250,7 @@ CHECKS = {
     "C12": dict(stages=[Stage("mp", "TraceMerge", plan_mp)], design=["MCMerge"],
                 rule="session = one merge patch document read by ReadMergeString and applied to every target of the family"),
     "C13": dict(stages=[Stage("cr", "TraceCrash", plan_cr, extra={"tier": "TIER"}),
-                        Stage("proc", "TraceCli", lambda t, s, p: [], bins=True, extra={"frac": "FRAC"})], design=["MCText"],
+                        Stage("proc", "TraceCli", lambda t, s, p: [], bins=True, extra={"frac": "FRAC"})], design=["MCText", "MCCli"],
                 rule="session = one input: a line sequence over 46 line kinds (all of length <= 2, sampled/all of length 3, seeded longer ones), "
                      "a structurally valid hunk with arbitrary path built from fields and through text, an op sequence, or a seeded byte "
                      "mutation of a valid text; every accepted diff is applied to documents of every kind"),
@@ -247,18 +266,18 @@ CHECKS = {
                      "json-born equality, and two CLI protocols; non-trivial = the document contains a hostile string or a container"),
     "C17": dict(stages=[Stage("v1", "TraceV1", plan_v1, yaml_every=0)], design=["MCV1"],
                 rule="session = one (a,b,metadata) through package lib: Diff, Patch of every prefix, Equals, Render + ReadDiffString + Patch"),
-    "C18": dict(stages=[Stage("v1", "TraceV1", plan_v1, yaml_every=0, table="pointer")], design=["MCV1"],
+    "C18": dict(stages=[Stage("v1", "TraceV1", plan_v1, yaml_every=0, table="pointer")], design=["MCV1", "MCMerge"],
                 rule="session = one list-mode or merge-mode (a,b) through package lib: RenderPatch evaluated by the RFC 6902 machine, RenderMerge by "
                      "the RFC 7386 function, and both read back by the v1 readers and applied"),
-    "C03": dict(stages=[Stage("pt", "TraceDP", plan_pt)], design=["MCPatch"],
+    "C03": dict(stages=[Stage("pt", "TraceDP", plan_pt)], design=["MCPatch-list"],
                 rule="session = one list-mode diff with its sub-sequences applied to a, b and perturbed targets; "
                      "non-trivial = at least one target rejected and one accepted"),
     "C04": dict(stages=[Stage("eq", "TraceEq", plan_eq)], design=["MCEq"],
                 rule="session = one (a, b, options) triple: Equals(a,b), Equals(b,a), Equals(a,a) against the canonical-form oracle"),
-    "C05": dict(stages=[Stage("dp", "TraceDP", plan_dp), Stage("proc", "TraceCli", lambda t, s, p: [], bins=True, extra={"frac": "FRAC"})], design=["MCPatch"], rule="session = (a,b,options): len(Diff)=0 iff Equals"),
-    "C06": dict(stages=[Stage("dp", "TraceDP", plan_dp)], design=["MCPatch"], rule="session = list-mode (a,b): hunks vs independent LCS"),
-    "C07": dict(stages=[Stage("dp", "TraceDP", plan_dp)], design=["MCPatch"], rule="session = (a,b,options): per-hunk and leave-one-out"),
-    "C08": dict(stages=[Stage("pt", "TraceDP", plan_pt)], design=["MCPatch"], rule="session = set/multiset/setkeys diff on permuted and perturbed targets"),
+    "C05": dict(stages=[Stage("dp", "TraceDP", plan_dp), Stage("proc", "TraceCli", lambda t, s, p: [], bins=True, extra={"frac": "FRAC"})], design=["MCPatch-obj"], rule="session = (a,b,options): len(Diff)=0 iff Equals"),
+    "C06": dict(stages=[Stage("dp", "TraceDP", plan_dp)], design=["ListDiff", "MCPatch-list", "MCPatch-nest"], rule="session = list-mode (a,b): hunks vs independent LCS"),
+    "C07": dict(stages=[Stage("dp", "TraceDP", plan_dp)], design=["ListDiff", "MCPatch-nest", "MCPatch-obj"], rule="session = (a,b,options): per-hunk and leave-one-out"),
+    "C08": dict(stages=[Stage("pt", "TraceDP", plan_pt)], design=["MCPatch-keyed"], rule="session = set/multiset/setkeys diff on permuted and perturbed targets"),
 }
 
 
@@ -316,7 +335,11 @@ def run_check(prop, tier, seed, keep=False):
     try:
         jdv = L.build_harness(sc)
         bins = None
-        design = run_design(sc, cfg.get("design", []))
+        dnames = list(cfg.get("design", []))
+        if tier == "thorough":
+            dnames = [("ListDiff-4" if d == "ListDiff" else d) for d in dnames]
+            dnames += [d for d in THOROUGH_EXTRA.get(prop, []) if d not in dnames]
+        design = run_design(sc, dnames)
         fails, notes, knowns = [], [], []
         stats = {}
         sessions = records = 0
